@@ -540,10 +540,11 @@ func (c *scriptedCA) Sign(ctx context.Context, req *proto.SSHCertificateSigningR
 		ob.failed = true
 		return nil, nil, fmt.Errorf("CA cannot parse public key: %v", err)
 	}
-	now := uint64(time.Now().Unix())
+	caNow := time.Now().Unix() + c.run.CA.SkewSec // the CA has its own clock
 	var certs []ssh.PublicKey
 	for i := 0; i < c.run.CA.NCerts; i++ {
 		c.w.serial++
+		now := uint64(max(caNow+int64(i)*c.run.CA.StaggerSec, 0))
 		crt := &ssh.Certificate{Key: pub, Serial: c.w.serial, CertType: ssh.UserCert, KeyId: req.GetKeyId(),
 			ValidPrincipals: req.GetPrincipals(), ValidAfter: now, ValidBefore: now + req.GetValidity()}
 		crt.Permissions.Extensions = req.GetExtensions()
